@@ -7,8 +7,9 @@
 //!   2 a b  add_template_owned(&'static str, String)
 //!   3 a b  add_template_owned(String, &'static str)
 //!   4 a    remove_template      5  clear_templates      6 l  set_loader(closure l reading the clock)
-//!   7 t    clock := t           8 a  get_template(a).render(ctx) on the environment itself
-//!   9 r w  add_filter/add_test/add_function  (r = 2*kind + which name, w = closure variant)
+//!   7 t    clock := t           8 a rc  get_template(a).render(..) on the environment itself; rc = q + 4*sink + 8*thread:
+//!                               context q, into a failing writer, on a thread of its own
+//!   9 r w  add_filter/add_test/add_function/add_global  (r = 4*kind + which name, w = closure/value variant)
 //!   10 r   remove_filter/remove_test/remove_global
 //!   11     clone, continue on the clone   12  clone, continue on the original   13  switch to the other
 //!   14 a b render_named_str(name a | "oneoff", source b)   16 _ b render_str   17 a b template_from_named_str + render
@@ -20,7 +21,7 @@
 //! other environment.  mode 1: only the last step's `tag val` and the 8 integers of the current environment after it.
 //! tag 0 = rendered the integer val; 1 = error of kind val; 2 = nothing to report; 3 = non-integer
 //! output of length val; 4 = the caller's own Serialize impl panicked; 5 = the integer val/4 with val%4 newlines.
-use minijinja::value::{Serde, Value};
+use minijinja::value::{Kwargs, Serde, Value};
 use minijinja::{Environment, Error, ErrorKind};
 use mjverif::*;
 use serde::ser::{Error as _, Serialize, SerializeStruct, Serializer};
@@ -30,32 +31,27 @@ use std::sync::atomic::{AtomicI64, Ordering};
 use std::sync::Arc;
 
 pub const NAMES: [&str; 4] = ["a", "b", "c", "d"];
-pub const REG_NAMES: [[&str; 2]; 3] = [["cf", "abs"], ["ct", "odd"], ["cg", "range"]];
+pub const REG_NAMES: [[&str; 4]; 3] = [["cf", "abs", "kf", "cf3"], ["ct", "odd", "kt", "ct3"], ["cg", "range", "site", "kw"]];
 
 pub fn src_text(x: i64) -> String {
-    let k = x.rem_euclid(8);
-    let p = x.div_euclid(8);
-    let which = p.rem_euclid(2) as usize;
-    let v = p.div_euclid(2);
+    let k = x.rem_euclid(16);
+    let p = x.div_euclid(16);
     match k {
         1 => format!("{{{{ {} }}}}{{% bad", p),
         2 => format!(
             "{{{{ {} }}}}{{% for x in [1,2] %}}{{% set y %}}a{{{{ 1 // 0 }}}}{{% endset %}}{{% endfor %}}",
             p
         ),
-        3 => format!("{{{{ {}|{} }}}}", v, REG_NAMES[0][which]),
-        4 => format!("{{{{ 1 if {} is {} else 0 }}}}", v, REG_NAMES[1][which]),
-        5 => format!("{{{{ {}({})|length }}}}", REG_NAMES[2][which], v),
         6 => format!("{{% for i in [1] %}}\n{{{{ {} }}}}{{% endfor %}}", p),
         7 => format!("{{% if true %}}{{{{ {} }}}}{{% endif %}}\n", p),
-        _ => format!("{{{{ {} }}}}", p),
+        _ => format!("{{{{ {} }}}}", expr_text(x)),
     }
 }
 
 /// The same source as an expression (for compile_expression).
 pub fn expr_text(x: i64) -> String {
-    let k = x.rem_euclid(8);
-    let p = x.div_euclid(8);
+    let k = x.rem_euclid(16);
+    let p = x.div_euclid(16);
     let which = p.rem_euclid(2) as usize;
     let v = p.div_euclid(2);
     match k {
@@ -64,6 +60,16 @@ pub fn expr_text(x: i64) -> String {
         3 => format!("{}|{}", v, REG_NAMES[0][which]),
         4 => format!("1 if {} is {} else 0", v, REG_NAMES[1][which]),
         5 => format!("{}({})|length", REG_NAMES[2][which], v),
+        // a global holding a container: printed / serialized to JSON (fails when a key is not a string)
+        8 => "(site|string)|length".to_string(),
+        9 => "(site|tojson)|length".to_string(),
+        // user function / filter / test taking Kwargs; the keyword arguments are all literals
+        10 => format!("kw(q, {}, opt=1)", p),
+        11 => format!("q|kf({}, opt=1)", p),
+        // a container of the (reused) context
+        12 => "(data|tojson)|length".to_string(),
+        13 => "(data|string)|length".to_string(),
+        14 => "1 if q is kt(opt=1) else 0".to_string(),
         _ => format!("{}", p),
     }
 }
@@ -76,7 +82,7 @@ pub fn loader_fn(l: i64, now: i64, n: i64) -> Result<Option<String>, Error> {
         Err(Error::new(ErrorKind::InvalidOperation, "loader failed"))
     } else {
         Ok(Some(src_text(
-            (x - 4).rem_euclid(8) + 8 * (n.rem_euclid(2) + 2 * (1000 + 10 * now + l)),
+            (x - 4).rem_euclid(12) + 16 * (n.rem_euclid(2) + 2 * (1000 + 10 * now + l)),
         )))
     }
 }
@@ -84,9 +90,63 @@ pub fn loader_fn(l: i64, now: i64, n: i64) -> Result<Option<String>, Error> {
 #[derive(serde::Serialize)]
 pub struct Ctx {
     x: Value,
+    q: i64,
+    data: Value,
 }
-pub fn ctx() -> Serde<Ctx> {
-    Serde(Ctx { x: Value::from(vec![1, 2, 3]) })
+/// The context of a render: `q` varies between renders, `data` is one container object (with a key
+/// JSON cannot represent) that is reused by every render of a world.
+pub fn ctx_of(q: i64, data: &Value) -> Serde<Ctx> {
+    Serde(Ctx { x: Value::from(vec![1, 2, 3]), q, data: data.clone() })
+}
+
+fn map_of(pairs: Vec<(Value, Value)>) -> Value {
+    Value::from(pairs.into_iter().collect::<std::collections::BTreeMap<Value, Value>>())
+}
+pub fn data_value() -> Value {
+    map_of(vec![(Value::from("k"), map_of(vec![(Value::from(vec![1, 2]), Value::from("pair"))]))])
+}
+/// The container held by the global `site`, by variant.
+pub fn site_value(w: i64) -> Value {
+    match w {
+        1 => map_of(vec![
+            (Value::from("name"), Value::from("demo")),
+            (Value::from("by_pos"), map_of(vec![(Value::from(vec![1, 2]), Value::from("pair"))])),
+        ]),
+        2 => map_of(vec![(Value::from("name"), Value::from("demo")), (Value::from("items"), Value::from(vec![1, 2, 3]))]),
+        _ => Value::from(vec![map_of(vec![(Value::from(()), Value::from(1))]), Value::from(2)]),
+    }
+}
+
+/// A writer that refuses every write.
+pub struct FailingSink;
+impl std::io::Write for FailingSink {
+    fn write(&mut self, _buf: &[u8]) -> std::io::Result<usize> {
+        Err(std::io::Error::new(std::io::ErrorKind::Other, "sink failed"))
+    }
+    fn flush(&mut self) -> std::io::Result<()> {
+        Ok(())
+    }
+}
+
+/// One render call: rc = q + 4*sink + 8*thread: context q = rc%4; into a failing writer; on a
+/// thread of its own.
+pub fn render_call(env: &Environment<'static>, name: &str, rc: i64, data: &Value) -> (i64, i64) {
+    let q = rc.rem_euclid(4);
+    let sink = rc.div_euclid(4).rem_euclid(2) == 1;
+    let go = || {
+        enc(env.get_template(name).and_then(|t| {
+            if sink {
+                t.render_captured_to(ctx_of(q, data), FailingSink).map(|_| "0".to_string())
+            } else {
+                t.render(ctx_of(q, data))
+            }
+        }))
+    };
+    if rc.div_euclid(8).rem_euclid(2) == 1 {
+        std::thread::scope(|s| s.spawn(go).join().unwrap_or((2, 0)))
+    } else {
+        go()
+    }
 }
 
 /// A context that hands a Value to the serializer (so a value handle is registered) and then
@@ -130,16 +190,17 @@ fn leak(s: String) -> &'static str {
     Box::leak(s.into_boxed_str())
 }
 
-pub fn observe(env: &Environment<'static>, out: &mut Vec<String>) {
+pub fn observe(env: &Environment<'static>, data: &Value, out: &mut Vec<String>) {
     let c = env.clone();
     for n in NAMES {
-        let (t, v) = enc(c.get_template(n).and_then(|t| t.render(ctx())));
+        let (t, v) = enc(c.get_template(n).and_then(|t| t.render(ctx_of(0, data))));
         out.push(t.to_string());
         out.push(v.to_string());
     }
 }
 
 pub struct World {
+    pub data: Value,
     pub clock: Arc<AtomicI64>,
     pub cur: Environment<'static>,
     pub other: Option<Environment<'static>>,
@@ -147,7 +208,7 @@ pub struct World {
 
 impl World {
     pub fn new() -> World {
-        World { clock: Arc::new(AtomicI64::new(0)), cur: Environment::new(), other: None }
+        World { data: data_value(), clock: Arc::new(AtomicI64::new(0)), cur: Environment::new(), other: None }
     }
 
     pub fn step(&mut self, op: i64, a: i64, b: i64) -> (i64, i64) {
@@ -182,18 +243,35 @@ impl World {
                 self.clock.store(a, Ordering::SeqCst);
                 unit
             }
-            8 => enc(self.cur.get_template(name).and_then(|t| t.render(ctx()))),
+            8 => render_call(&self.cur, name, b, &self.data),
             9 | 10 => {
-                let kind = a.div_euclid(2);
-                let rname = REG_NAMES[if (0..2).contains(&kind) { kind as usize } else { 2 }][a.rem_euclid(2) as usize];
+                let kind = if (0..2).contains(&a.div_euclid(4)) { a.div_euclid(4) } else { 2 };
+                let which = a.rem_euclid(4);
+                let rname = REG_NAMES[kind as usize][which as usize];
                 let w = b;
-                match (op, kind) {
-                    (9, 0) => self.cur.add_filter(rname, move |v: i64| v + w),
-                    (9, 1) => self.cur.add_test(rname, move |v: i64| (v + w).rem_euclid(2) == 1),
-                    (9, _) => self.cur.add_function(rname, move |v: i64| (0..v + w).collect::<Vec<i64>>()),
-                    (_, 0) => self.cur.remove_filter(rname),
-                    (_, 1) => self.cur.remove_test(rname),
-                    (_, _) => self.cur.remove_global(rname),
+                match (op, kind, which) {
+                    (9, 0, 2) => self.cur.add_filter(rname, move |v: i64, x: i64, kw: Kwargs| -> Result<i64, Error> {
+                        let r = if (v + w).rem_euclid(2) == 1 { x + kw.get::<i64>("opt")? } else { x };
+                        kw.assert_all_used()?;
+                        Ok(r)
+                    }),
+                    (9, 0, _) => self.cur.add_filter(rname, move |v: i64| v + w),
+                    (9, 1, 2) => self.cur.add_test(rname, move |v: i64, kw: Kwargs| -> Result<bool, Error> {
+                        let r = if (v + w).rem_euclid(2) == 1 { kw.get::<i64>("opt")? == 1 } else { false };
+                        kw.assert_all_used()?;
+                        Ok(r)
+                    }),
+                    (9, 1, _) => self.cur.add_test(rname, move |v: i64| (v + w).rem_euclid(2) == 1),
+                    (9, _, 2) => self.cur.add_global(rname, site_value(w)),
+                    (9, _, 3) => self.cur.add_function(rname, move |q: i64, x: i64, kw: Kwargs| -> Result<i64, Error> {
+                        let r = if (q + w).rem_euclid(2) == 1 { x + kw.get::<i64>("opt")? } else { x };
+                        kw.assert_all_used()?;
+                        Ok(r)
+                    }),
+                    (9, _, _) => self.cur.add_function(rname, move |v: i64| (0..v + w).collect::<Vec<i64>>()),
+                    (_, 0, _) => self.cur.remove_filter(rname),
+                    (_, 1, _) => self.cur.remove_test(rname),
+                    (_, _, _) => self.cur.remove_global(rname),
                 }
                 unit
             }
@@ -214,22 +292,22 @@ impl World {
             }
             // ad-hoc entry points: a source, and (14, 17, 21) a name that may collide with a stored or
             // loader-served template (a in 0..4) or not ("oneoff")
-            14 => enc(self.cur.render_named_str(adhoc_name(a), &src_text(b), ctx())),
-            16 => enc(self.cur.render_str(&src_text(b), ctx())),
+            14 => enc(self.cur.render_named_str(adhoc_name(a), &src_text(b), ctx_of(0, &self.data))),
+            16 => enc(self.cur.render_str(&src_text(b), ctx_of(0, &self.data))),
             17 => enc(self
                 .cur
                 .template_from_named_str(adhoc_name(a), leak(src_text(b)))
-                .and_then(|t| t.render(ctx()))),
-            18 => enc(self.cur.template_from_str(leak(src_text(b))).and_then(|t| t.render(ctx()))),
+                .and_then(|t| t.render(ctx_of(0, &self.data)))),
+            18 => enc(self.cur.template_from_str(leak(src_text(b))).and_then(|t| t.render(ctx_of(0, &self.data)))),
             19 => enc(self
                 .cur
                 .compile_expression(leak(expr_text(b)))
-                .and_then(|e| e.eval(ctx()))
+                .and_then(|e| e.eval(ctx_of(0, &self.data)))
                 .map(|v| v.to_string())),
             20 => enc(self
                 .cur
                 .compile_expression_owned(expr_text(b))
-                .and_then(|e| e.eval(ctx()))
+                .and_then(|e| e.eval(ctx_of(0, &self.data)))
                 .map(|v| v.to_string())),
             21 => enc(self
                 .cur
@@ -273,17 +351,17 @@ fn main() {
                 if c.i + 3 > c.v.len() {
                     out.push(t.to_string());
                     out.push(v.to_string());
-                    observe(&w.cur, &mut out);
+                    observe(&w.cur, &w.data, &mut out);
                 }
                 continue;
             }
             out.push(t.to_string());
             out.push(v.to_string());
-            observe(&w.cur, &mut out);
+            observe(&w.cur, &w.data, &mut out);
             match &w.other {
                 Some(o) => {
                     out.push("1".into());
-                    observe(o, &mut out);
+                    observe(o, &w.data, &mut out);
                 }
                 None => {
                     out.push("0".into());
